@@ -7,6 +7,7 @@ use crate::rjson::*;
 use crate::rows::*;
 use crate::runner::*;
 use crate::univ::*;
+use proptest::collection::vec;
 use proptest::prelude::*;
 use serde::{Deserialize, Serialize};
 use serde_json::json;
@@ -237,13 +238,129 @@ impl Check for C08Exhaustive {
     }
 }
 
+/// The slice relation on configurations with generated expressions in every option (the
+/// generator of C03): no model, jawk with limits against jawk without.
+pub struct C08ExprSlice;
+impl Check for C08ExprSlice {
+    type Case = crate::p03::Case03;
+    fn name(&self) -> &'static str {
+        "C08.expr_slice"
+    }
+    fn cases(&self, tier: Tier) -> u64 {
+        tier.pick(40_000, 1_000_000)
+    }
+    fn strategy(&self, _t: Tier) -> BoxedStrategy<crate::p03::Case03> {
+        (vec(any::<u32>(), 0..500), any::<u64>()).prop_map(|(tape, a)| crate::p03::decode_case03(&tape, a, a)).boxed()
+    }
+    fn check(&self, c: &crate::p03::Case03) -> CaseResult {
+        let input: Vec<u8> = c.inputs.join("\n").into_bytes();
+        if c.unique && !crate::univ::coherent_for_unique(&input) {
+            return CaseResult::Discard("--unique outside C10's domain".into());
+        }
+        let mut flat = c.clone();
+        flat.skip = 0;
+        flat.take = None;
+        flat.group = 0;
+        flat.group_key = None;
+        let mut limited = c.clone();
+        limited.group = 0;
+        limited.group_key = None;
+        let base = run(&flat.args(0), &input);
+        let lim = run(&limited.args(c.order_seed | 1), &input);
+        if !base.res.is_ok() || !lim.res.is_ok() {
+            return CaseResult::Fail(format!("run failed: {} / {} (args {:?})", base.res.short(), lim.res.short(), limited.args(0)));
+        }
+        let all: Vec<&[u8]> = base.stdout.split_inclusive(|b| *b == b'\n').collect();
+        let s = (c.skip as usize).min(all.len());
+        let e = match c.take {
+            Some(t) => (s + t as usize).min(all.len()),
+            None => all.len(),
+        };
+        let exp: Vec<u8> = all[s..e].concat();
+        if lim.stdout != exp {
+            return CaseResult::Fail(format!(
+                "--skip {} --take {:?} printed {} which is not rows {}..{} of the {} unlimited rows {} (args {:?})",
+                c.skip,
+                c.take,
+                esc_trunc(&lim.stdout, 300),
+                s,
+                e,
+                all.len(),
+                esc_trunc(&base.stdout, 300),
+                limited.args(0)
+            ));
+        }
+        // the grouped form: exactly one collection of that slice
+        let mut grouped_ok = false;
+        if c.group != 0 {
+            let g = run(&c.args(0), &input);
+            if !g.res.is_ok() {
+                return CaseResult::Fail(format!("grouped run failed: {}", g.res.short()));
+            }
+            let rows = match crate::rjson::split_rows(&g.stdout, b"\n") {
+                Ok(r) => r,
+                Err(m) => return CaseResult::Fail(m),
+            };
+            if rows.len() != 1 {
+                return CaseResult::Fail(format!("{} rows instead of exactly one collection (args {:?}): {}", rows.len(), c.args(0), esc_trunc(&g.stdout, 300)));
+            }
+            if c.group == 2 {
+                // merge: the array of exactly the sliced rows
+                let want = crate::rjson::split_rows(&exp, b"\n").map(|r| r.into_iter().map(|x| x.0.to_json()).collect::<Vec<_>>());
+                let got = match &rows[0].0 {
+                    crate::rjson::RVal::Arr(a) => Ok(a.iter().map(|x| x.to_json()).collect::<Vec<_>>()),
+                    _ => Err("not an array".to_string()),
+                };
+                if want != got {
+                    return CaseResult::Fail(format!("--merge with limits is not the array of rows {}..{}: {} (args {:?})", s, e, esc_trunc(&g.stdout, 300), c.args(0)));
+                }
+            } else if let crate::rjson::RVal::Obj(o) = &rows[0].0 {
+                // group-by: the members are arrays whose concatenated length cannot exceed the slice, and every
+                // grouped row is one of the sliced rows
+                let sliced: Vec<String> = crate::rjson::split_rows(&exp, b"\n").map(|r| r.into_iter().map(|x| x.0.to_json()).collect()).unwrap_or_default();
+                let mut n = 0;
+                for (_, v) in o {
+                    if let crate::rjson::RVal::Arr(a) = v {
+                        for x in a {
+                            n += 1;
+                            if !sliced.contains(&x.to_json()) {
+                                return CaseResult::Fail(format!("a grouped row is not among rows {}..{} of the unlimited result: {} (args {:?})", s, e, x.to_json(), c.args(0)));
+                            }
+                        }
+                    }
+                }
+                if n > sliced.len() {
+                    return CaseResult::Fail(format!("{} grouped rows from a slice of {} rows (args {:?})", n, sliced.len(), c.args(0)));
+                }
+            } else {
+                return CaseResult::Fail(format!("--group-by printed something that is not an object: {}", esc_trunc(&g.stdout, 200)));
+            }
+            grouped_ok = true;
+        }
+        let cut = (c.skip > 0 || c.take.is_some()) && all.len() >= 2;
+        CaseResult::Pass(
+            Info::new(cut && (!c.sorts.is_empty() || c.unique || c.pipe.split.is_some() || c.group != 0))
+                .class_if(!c.sorts.is_empty(), "sorted")
+                .class_if(c.sorts.len() >= 2, "multi_key")
+                .class_if(c.unique, "unique")
+                .class_if(c.pipe.split.is_some(), "split")
+                .class_if(grouped_ok, "grouped")
+                .class_if(c.skip as usize >= all.len() && !all.is_empty(), "skip_beyond_end")
+                .class_if(c.take == Some(0), "take_0")
+                .weight(2)
+                .obs(json!({"args": limited.args(0), "unlimited_rows": all.len()})),
+        )
+    }
+}
+
 pub fn run_all(ctx: &mut Ctx) {
-    ctx.rule = "C08.slice: 0..40 records (keys from small pools of the universe, so ties are common) x generated pipeline (split, filter, select, unique, 0..3 sort keys, group-by/merge) x skip 0..6 x take absent|0..6; relation: rows(with limits) = rows(without)[S..S+T] byte for byte, or for group/merge the single output equals the documented grouping of that slice. non-trivial = >= 2 unlimited rows and (the cut falls inside a run of tied sort keys, or a multi-key sort is cut, or group/merge with a limit, or unique/split is cut). C08.exhaustive: every stream up to length 4 (quick) / 5 (thorough) over 4 keys x 8 fixed pipelines x all 56 limit pairs; distinct = enumeration index".into();
+    ctx.rule = "C08.expr_slice: the same slice relation on configurations with generated expressions in every option (generator of C03: --set, --split-by, --filter, --select, --unique, 0..3 --sort-by, inputs that tie), plus: with --merge the single array is exactly that slice, with --group-by exactly one object whose rows all come from that slice. C08.slice: 0..40 records (keys from small pools of the universe, so ties are common) x generated pipeline (split, filter, select, unique, 0..3 sort keys, group-by/merge) x skip 0..6 x take absent|0..6; relation: rows(with limits) = rows(without)[S..S+T] byte for byte, or for group/merge the single output equals the documented grouping of that slice. non-trivial = >= 2 unlimited rows and (the cut falls inside a run of tied sort keys, or a multi-key sort is cut, or group/merge with a limit, or unique/split is cut). C08.exhaustive: every stream up to length 4 (quick) / 5 (thorough) over 4 keys x 8 fixed pipelines x all 56 limit pairs; distinct = enumeration index".into();
     ctx.assumptions = vec!["the unlimited run of the same pipeline is the reference (metamorphic, jawk vs jawk); its own correctness is C03/C07/C09/C10's subject".into()];
     run_exhaustive(ctx);
     C08Slice.run(ctx);
+    C08ExprSlice.run(ctx);
 }
 
 pub fn checks() -> Vec<Box<dyn DynCheck>> {
-    vec![Box::new(C08Slice), Box::new(C08Exhaustive)]
+    vec![Box::new(C08Slice), Box::new(C08Exhaustive), Box::new(C08ExprSlice)]
 }
